@@ -152,7 +152,6 @@ def resample_group(g, method, N):
     T = g.try_trace(f"resample({method}) traces", f, p0, sym_in=sym_in, logmode=True)
     if T is None:
         return
-    T.no_validate = True
     (p_in,) = T.ins
     q, lml0, lml1 = T.outs
     A = list(cons)
